@@ -19,7 +19,9 @@ structure D where
   auto : List Nat      -- handler threads (append + flush in one call)
   nt : Nat             -- threads used in this epoch are 0 … nt-1
 
-def showBatch (b : Batch) : String := s!"{b.id}@{b.base}+{b.n}"
+/-- `id@base+n`, followed by `#mc` when the declared record count is not the number of offsets -/
+def showBatch (b : Batch) : String :=
+  s!"{b.id}@{b.base}+{b.n}" ++ (if b.mc = (b.n : Int) then "" else s!"#{b.mc}")
 def showBatches (l : List Batch) : String := if l.isEmpty then "-" else joinWith "." (l.map showBatch)
 def showOB : Option Bool → String
   | none => "-"
@@ -98,7 +100,10 @@ def stepLine (d : D) (ws0 : List String) : D × String :=
   | ["new", kb, km, var] =>
     match kb.toNat?, km.toNat? with
     | some kb, some km =>
-      let v := if var = "old" then old else fixed
+      let v := if var = "old" then old
+               else if var = "hardened" then { fixed with strictBuild := true }
+               else if var = "hardened-requeue" then { fixed with strictBuild := true, requeueBuild := true }
+               else fixed
       let d' : D := { v := v, s := init ⟨kb, km⟩, auto := [], nt := 0 }
       (d', "ok " ++ showState d')
     | _, _ => (d, "bad-op")
@@ -114,15 +119,26 @@ def stepLine (d : D) (ws0 : List String) : D × String :=
     | some _ => let d' := { apply d .crash with auto := [], nt := 0 }; (d', "ok " ++ showState d')
   | ["append", t, n] =>
     match t.toNat?, n.toNat? with
-    | some t, some n => exec d (.append t n) t prio
+    | some t, some n => exec d (.wf t n) t prio
     | _, _ => (d, "bad-op")
+  | ["append", t, n, mc] =>      -- header lie: declared record count mc (the harness's batch has 61 + 11 n bytes)
+    match t.toNat?, n.toNat?, mc.toInt? with
+    | some t, some n, some mc => exec d (.append t n mc (61 + 11 * n)) t prio
+    | _, _, _ => (d, "bad-op")
   | ["produce", t, n] =>
     match t.toNat?, n.toNat? with
     | some t, some n =>
-      match step d.v d.s (.append t n) with
+      match step d.v d.s (.wf t n) with
       | none => (d, "disabled " ++ showState d)
-      | some _ => exec { d with auto := t :: d.auto } (.append t n) t prio
+      | some _ => exec { d with auto := t :: d.auto } (.wf t n) t prio
     | _, _ => (d, "bad-op")
+  | ["produce", t, n, mc] =>
+    match t.toNat?, n.toNat?, mc.toInt? with
+    | some t, some n, some mc =>
+      match step d.v d.s (.append t n mc (61 + 11 * n)) with
+      | none => (d, "disabled " ++ showState d)
+      | some _ => exec { d with auto := t :: d.auto } (.append t n mc (61 + 11 * n)) t prio
+    | _, _, _ => (d, "bad-op")
   | ["flush", t] =>
     match t.toNat? with
     | some t => if d.auto.contains t then (d, "disabled " ++ showState d) else exec d (.flush t) t prio
@@ -139,6 +155,10 @@ def stepLine (d : D) (ws0 : List String) : D × String :=
     match t.toNat?, parseOk o with
     | some t, some o => exec d (.pub t o) t prio
     | _, _ => (d, "bad-op")
+  | ["buildfault", o] =>        -- model only: the fault oracle of BuildSegment (bites in requeueBuild shapes only)
+    match parseOk o with
+    | some on => let d' := apply d (.buildFault on); (d', "ok " ++ showState d')
+    | none => (d, "bad-op")
   | ["readcheck"] =>
     match d.s.mem with
     | none => (d, "disabled")
